@@ -135,7 +135,7 @@ func runList(hs *history) (fails []h.Failure) {
 				models[o.S] = append([]zn.Value{}, models[o.J]...)
 				arr, model = arrs[o.S], models[o.S]
 			case "get":
-				got, err := value.NewArrayIV(arr, o.I).ReduceRHS()
+				got, err := h.ListGet(arr, o.I)
 				if o.I < 1 || o.I > n {
 					if errCode(err) != zerr.ErrIndexOutOfRange {
 						fail("read-out-of-range-accepted", fmt.Sprintf("reading #%d of a list of %d: expected an index error, got %v %v", o.I, n, got, err))
@@ -149,7 +149,7 @@ func runList(hs *history) (fails []h.Failure) {
 					return
 				}
 			case "set":
-				err := value.NewArrayIV(arr, o.I).ReduceLHS(zn.ToElem(poolValue(o.V)))
+				err := h.ListSet(arr, o.I, zn.ToElem(poolValue(o.V)))
 				if o.I < 1 || o.I > n {
 					if errCode(err) != zerr.ErrIndexOutOfRange {
 						fail("write-out-of-range-accepted", fmt.Sprintf("writing #%d of a list of %d: expected an index error, got %v", o.I, n, err))
@@ -593,7 +593,7 @@ func runDict(hs *history) (fails []h.Failure) {
 				}
 				models[o.S] = cp
 			case "dget":
-				got, err := value.NewHashMapIV(hm, o.K).ReduceRHS()
+				got, err := h.DictGet(hm, o.K)
 				want, ok := model.m[o.K]
 				if !ok {
 					if errCode(err) != zerr.ErrIndexKeyNotFound {
@@ -608,7 +608,7 @@ func runDict(hs *history) (fails []h.Failure) {
 					return
 				}
 			case "dset":
-				if err := value.NewHashMapIV(hm, o.K).ReduceLHS(zn.ToElem(poolValue(o.V))); err != nil {
+				if err := h.DictSet(hm, o.K, zn.ToElem(poolValue(o.V))); err != nil {
 					fail("write-rejected", err.Error())
 					return
 				}
